@@ -10,7 +10,6 @@ import secrets
 from abc import ABC, abstractmethod
 from pathlib import Path
 from typing import TYPE_CHECKING
-from urllib.parse import unquote
 
 from ..content.gemtext import generate_directory_listing
 from ..protocol.constants import (
@@ -21,6 +20,7 @@ from ..protocol.constants import (
 from ..protocol.request import GeminiRequest
 from ..protocol.response import GeminiResponse
 from ..protocol.status import StatusCode
+from ..utils.url import canonical_path_segments
 
 if TYPE_CHECKING:
     from ..protocol.request import TitanRequest
@@ -123,9 +123,16 @@ class StaticFileHandler(RequestHandler):
         Returns:
             A GeminiResponse with the file contents or an error.
         """
-        # Get the requested path: decode percent-escapes (RFC 3986, so that
-        # "a%20b.gmi" names the file "a b.gmi") and remove the leading slash
-        requested_path = unquote(request.path).lstrip("/")
+        # Get the requested path in canonical form: percent-escapes decoded (RFC
+        # 3986, so that "a%20b.gmi" names the file "a b.gmi"), dot segments
+        # resolved within the root ("/../root/x" must not climb out of the
+        # document root and back in)
+        try:
+            requested_path = "/".join(
+                canonical_path_segments(request.path, clamp=False)
+            )
+        except ValueError:
+            return GeminiResponse(status=StatusCode.NOT_FOUND.value, meta="Not found")
 
         # Construct the full file path
         file_path = _resolve_fully(self.document_root / requested_path)
@@ -403,7 +410,7 @@ class FileUploadHandler(UploadHandler):
             return await self._handle_delete(request.path)
 
         # 5. Validate path (path traversal protection)
-        target = _resolve_fully(self.upload_dir / unquote(request.path).lstrip("/"))
+        target = self._resolve_target(request.path)
         if target is None or not self._is_safe_path(target):
             return GeminiResponse(
                 status=StatusCode.BAD_REQUEST.value,
@@ -457,7 +464,7 @@ class FileUploadHandler(UploadHandler):
                 meta="Delete operations are disabled",
             )
 
-        target = _resolve_fully(self.upload_dir / unquote(path).lstrip("/"))
+        target = self._resolve_target(path)
 
         if target is None or not self._is_safe_path(target):
             return GeminiResponse(
@@ -488,6 +495,22 @@ class FileUploadHandler(UploadHandler):
                 status=StatusCode.TEMPORARY_FAILURE.value,
                 meta=f"Delete failed: {str(e)}",
             )
+
+    def _resolve_target(self, path: str) -> Path | None:
+        """Map a request path to the fully resolved file it denotes.
+
+        Args:
+            path: The URL path of the request.
+
+        Returns:
+            The resolved target, or None if the path climbs above the upload
+            directory or cannot be resolved completely.
+        """
+        try:
+            segments = canonical_path_segments(path, clamp=False)
+        except ValueError:
+            return None
+        return _resolve_fully(self.upload_dir / "/".join(segments))
 
     def _is_safe_path(self, file_path: Path) -> bool:
         """Check if a file path is within the upload directory.
